@@ -18,8 +18,21 @@ import itertools
 
 import z3
 
-BYTES = z3.StringSort()
+import os as _os
+
+# Byte strings: z3 sequences by default; with PYVC_BYTES=abstract (set before import, one
+# process per mode) an uninterpreted sort with uninterpreted concatenation and length,
+# whose few needed laws are supplied as term axioms (pyvc.smt.TERM_AXIOMS).  The
+# abstract mode is used where code only compares, concatenates and measures stems
+# (lru_trie.py, traph.py); it keeps z3's unstable sequence solver out of those queries.
+ABSTRACT_BYTES = _os.environ.get("PYVC_BYTES") == "abstract"
 INT = z3.IntSort()
+if ABSTRACT_BYTES:
+    BYTES = z3.DeclareSort("Bytes")
+    CAT = z3.Function("cat", BYTES, BYTES, BYTES)
+    BLEN = z3.Function("blen", BYTES, INT)
+else:
+    BYTES = z3.StringSort()
 BOOL = z3.BoolSort()
 BV8 = z3.BitVecSort(8)
 REAL = z3.RealSort()
@@ -102,7 +115,24 @@ def is_sym_int(v):
 
 
 def bytes_val(b):
+    if ABSTRACT_BYTES:
+        return z3.Const("lit_" + b.hex(), BYTES)
     return z3.StringVal(b.decode("latin-1"))
+
+
+def bcat(*xs):
+    xs = [to_z3(x) for x in xs]
+    if not ABSTRACT_BYTES:
+        return z3.Concat(*xs) if len(xs) > 1 else xs[0]
+    acc = xs[0]
+    for x in xs[1:]:
+        acc = CAT(acc, x)
+    return acc
+
+
+def blen(x):
+    x = to_z3(x)
+    return BLEN(x) if ABSTRACT_BYTES else z3.Length(x)
 
 
 def to_z3(v):
@@ -204,6 +234,10 @@ class Executor(object):
             goal = z3.BoolVal(False)
         if z3.is_true(goal):
             return
+        if not _has_quant(goal):
+            g2 = z3.simplify(goal)
+            if z3.is_true(g2):
+                return
         for c in path.pc:
             if c.eq(goal):
                 return
@@ -243,7 +277,7 @@ class Executor(object):
             if o.cls in ("dict", "set", "Counter"):
                 return self.truth(o.f["n"], path) if "n" in o.f else len(o.f["items"]) > 0
             if o.cls == "bytearray":
-                return z3.Length(o.f["content"]) > 0
+                return blen(o.f["content"]) > 0
             return True
         if isinstance(v, Func):
             return True
@@ -254,7 +288,7 @@ class Executor(object):
             if s == INT or s == REAL:
                 return v != 0
             if s == BYTES:
-                return z3.Length(v) > 0
+                return blen(v) > 0
             if z3.is_bv_sort(s):
                 return v != 0
         raise Unsupported("truth(%r)" % (v,))
@@ -699,6 +733,8 @@ class Executor(object):
         raise Unsupported("slice of %r line %s" % (base, ln))
 
     def seq_slice(self, s, lo, hi, p, ln):
+        if ABSTRACT_BYTES:
+            raise Unsupported("byte-string slicing in abstract-bytes mode (line %s)" % ln)
         n = z3.Length(s)
         lo = z3.IntVal(0) if lo is None else to_z3(self.unwrap(lo, p, "slice", ln))
         hi = n if hi is None else to_z3(self.unwrap(hi, p, "slice", ln))
@@ -901,7 +937,7 @@ class Executor(object):
         s = lz.sort()
         if s == BYTES:
             if isinstance(op, ast.Add):
-                return z3.Concat(lz, rz)
+                return bcat(lz, rz)
             raise Unsupported("bytes op")
         if z3.is_bv_sort(s):
             m = {ast.BitAnd: lambda: lz & rz, ast.BitOr: lambda: lz | rz, ast.RShift: lambda: z3.LShR(lz, rz), ast.LShift: lambda: lz << rz, ast.BitXor: lambda: lz ^ rz}
@@ -1256,7 +1292,20 @@ def _exact_div(l, r):
     return Fraction(l) / Fraction(r)
 
 
+_HQ = {}
+
+
 def _has_quant(c):
+    i = c.get_id()
+    r = _HQ.get(i)
+    if r is None:
+        r = _has_quant_compute(c)
+        _HQ[i] = (r, c)
+        return r
+    return r[0]
+
+
+def _has_quant_compute(c):
     seen = set()
     stack = [c]
     while stack:
